@@ -491,7 +491,7 @@ def r6_constructor(R) -> None:
                         guarded = True
             R.check(guarded, QI, 'span-compare-lengths', 'spans of different lengths never match',
                     f'`{text(allc)[:80]}` pairs the labels with zip(), which stops at the end of the shorter span, and the lengths are not compared: a span that is a leading '
-                    f'part of another (or an empty one) is accepted as matching - submodels with differing spans are not rejected', where=f'{fi.module.relpath}:{tn.lineno}')
+                    f'part of another (or an empty one) is accepted as matching - submodels with differing spans are not rejected', where=f'{fi.module.relpath}:{tn.lineno}', decided=True)
             R.check(a_ != b_, QI, 'span-compare-operands', 'two different submodels are compared', f'`{text(allc)[:60]}` compares a span with itself',
                     where=f'{fi.module.relpath}:{tn.lineno}')
             differ_edge = 'T' if isinstance(t2, ast.UnaryOp) and isinstance(t2.op, ast.Not) else 'F'
